@@ -164,11 +164,20 @@ def mutants(path):
             yield emit("swap", n.value, ast.unparse(new))
 
 
+BASE_PATCH = None        # --base PATCH: mutate the tree obtained by applying PATCH to /repo HEAD (a behaviour-preserving twin)
+
+
+def base_tree(d):
+    subprocess.run("git -C /repo archive HEAD | tar -x -C %s" % d, shell=True, check=True)
+    if BASE_PATCH:
+        subprocess.run("cd %s && git init -q . && git apply %s" % (d, BASE_PATCH), shell=True, check=True)
+
+
 def run_mutant(args):
     fname, kind, lineno, desc, new_text = args
     d = tempfile.mkdtemp(prefix="mutfuzz.")
     try:
-        subprocess.run("git -C /repo archive HEAD | tar -x -C %s" % d, shell=True, check=True)
+        base_tree(d)
         open(os.path.join(d, fname), "w").write(new_text)
         p = subprocess.run(["timeout", "-k", "5", "90", PY, "-m", "pytest", "-q", "-p", "no:cacheprovider", "-x"], cwd=d, stdout=subprocess.PIPE, stderr=subprocess.STDOUT, text=True)
         if p.returncode != 0:
@@ -190,12 +199,19 @@ def main():
     only = sys.argv[sys.argv.index("--only") + 1] if "--only" in sys.argv else None
     mx = int(sys.argv[sys.argv.index("--max") + 1]) if "--max" in sys.argv else None
     outp = sys.argv[sys.argv.index("--out") + 1] if "--out" in sys.argv else None
+    global BASE_PATCH
+    if "--base" in sys.argv:
+        BASE_PATCH = os.path.abspath(sys.argv[sys.argv.index("--base") + 1])
+    src_root = "/repo"
+    if BASE_PATCH:
+        src_root = tempfile.mkdtemp(prefix="mutbase.")
+        base_tree(src_root)
     jobs = []
     for fn in FILES:
         if only and fn != only:
             continue
         seen = set()
-        for m in mutants(os.path.join("/repo", fn)):
+        for m in mutants(os.path.join(src_root, fn)):
             if m is not None and m[3] not in seen:
                 seen.add(m[3])
                 jobs.append((fn, m[0], m[1], m[2], m[3]))
